@@ -72,6 +72,7 @@ type Box struct {
 	lock                        sync.RWMutex
 	pendingMessages             map[string]*storedMessages
 	startedSending              map[string]uint64
+	draining                    map[string][]*IncMessage // topics whose buffered messages a Send is handing over, with what is still to be handed over
 	totalInFlightTopicsBySender map[uint16]map[string]struct{}
 	//Config
 	MessageHandler
@@ -124,75 +125,62 @@ func (b *Box) HandleMessage(msg *IncMessage) {
 	}
 }
 
+// getOrCreateMessagesByTopic is called with the lock of the box held.
 func (b *Box) getOrCreateMessagesByTopic(topic []byte) *storedMessages {
-	b.initialize()
-
-	b.lock.RLock()
 	messages, exists := b.pendingMessages[string(topic)]
-	b.lock.RUnlock()
-
-	if exists {
-		return messages
-	}
-
-	verifYield("lookup:between")
-
-	b.lock.Lock()
-	defer b.lock.Unlock()
-
-	messages, exists = b.pendingMessages[string(topic)]
 	if !exists {
 		messages = &storedMessages{
 			messageCountPerSender: make(map[uint16]int),
 			logger:                b.Logger,
 			lastUsed:              atomic.LoadUint64(&b.currentGCEpochNum),
 		}
+		b.pendingMessages[string(topic)] = messages
 	}
 
-	b.pendingMessages[string(topic)] = messages
 	return messages
 }
 
+// storeOrForward decides under the lock of the box, which Send takes to mark the topic as started and to detach what was
+// buffered for it: a message is therefore either buffered before the topic starts (and handed over by that Send),
+// or finds the topic started. While Send is still handing over the buffered messages of the topic, a message that finds
+// it started queues up behind them, so that the messages of a sender are handed over in the order of their arrival.
+// The message handler is never called with the lock held.
 func (b *Box) storeOrForward(msg *IncMessage) {
 	b.initialize()
 
-	if b.hasStartedSending(msg.Topic) {
-		b.MessageHandler.HandleMessage(msg)
+	b.lock.Lock()
+
+	if _, started := b.startedSending[string(msg.Topic)]; started {
+		queue, draining := b.draining[string(msg.Topic)]
+		if draining {
+			b.draining[string(msg.Topic)] = append(queue, msg)
+		}
+		b.lock.Unlock()
+
+		if !draining {
+			b.MessageHandler.HandleMessage(msg)
+		}
 		return
 	}
 
-	verifYield("recv:after-check")
+	defer b.lock.Unlock()
 
-	var tooManyTopicsFromSender bool
-
-	b.lock.RLock()
 	if activeTopicsFromSource, exists := b.totalInFlightTopicsBySender[msg.Source]; exists {
-		tooManyTopicsFromSender = len(activeTopicsFromSource) > b.MaxInFlightTopicsBySender
+		if len(activeTopicsFromSource) > b.MaxInFlightTopicsBySender {
+			b.Logger.Warnf("Received too many topics from %d (limit is %d)", msg.Source, b.MaxInFlightTopicsBySender)
+			return
+		}
 	}
-	b.lock.RUnlock()
-
-	if tooManyTopicsFromSender {
-		b.Logger.Warnf("Received too many topics from %d (limit is %d)", msg.Source, b.MaxInFlightTopicsBySender)
-		return
-	}
-
-	verifYield("recv:after-count")
 
 	b.markTopicForSender(msg)
 
-	verifYield("recv:after-mark")
-
 	messages := b.getOrCreateMessagesByTopic(msg.Topic)
-
-	verifYield("recv:after-lookup")
 
 	messages.add(msg, atomic.LoadUint64(&b.currentGCEpochNum))
 }
 
+// markTopicForSender is called with the lock of the box held.
 func (b *Box) markTopicForSender(msg *IncMessage) {
-	b.lock.Lock()
-	defer b.lock.Unlock()
-
 	if _, exists := b.totalInFlightTopicsBySender[msg.Source]; !exists {
 		b.totalInFlightTopicsBySender[msg.Source] = make(map[string]struct{})
 	}
@@ -203,20 +191,10 @@ func (b *Box) initialize() {
 	b.init.Do(func() {
 		b.pendingMessages = make(map[string]*storedMessages)
 		b.startedSending = make(map[string]uint64)
+		b.draining = make(map[string][]*IncMessage)
 		b.totalInFlightTopicsBySender = make(map[uint16]map[string]struct{})
 		b.startClock()
 	})
-}
-
-func (b *Box) hasStartedSending(topic []byte) bool {
-	b.initialize()
-
-	b.lock.RLock()
-	defer b.lock.RUnlock()
-
-	_, exists := b.startedSending[string(topic)]
-
-	return exists
 }
 
 func (b *Box) maybeGC() {
@@ -287,29 +265,49 @@ func (b *Box) Send(msgType uint8, topic []byte, msg []byte, to ...UniversalID) {
 	b.lock.Lock()
 	b.startedSending[string(topic)] = atomic.LoadUint64(&b.currentGCEpochNum)
 	msgs := b.pendingMessages[string(topic)]
-	var messages []*IncMessage
+	var handOver bool
 	if msgs != nil {
 		msgs.lock.RLock()
-		messages = msgs.messages
+		messages := msgs.messages
 		msgs.lock.RUnlock()
 		// The topic has started: what was buffered for it no longer counts against its senders
 		for _, sender := range msgs.senders() {
 			delete(b.totalInFlightTopicsBySender[sender], string(topic))
 		}
-	}
-
-	defer func() {
-		for _, msg := range messages {
-			verifYield("send:drain")
-			b.HandleMessage(msg)
+		if len(messages) > 0 {
+			// Whoever put the topic into the draining table hands over all that is appended to its queue
+			queue, alreadyDraining := b.draining[string(topic)]
+			b.draining[string(topic)] = append(queue, messages...)
+			handOver = !alreadyDraining
 		}
-	}()
+	}
 
 	delete(b.pendingMessages, string(topic))
 
 	b.lock.Unlock()
 
-	verifYield("send:after-start")
+	if handOver {
+		defer b.drain(string(topic))
+	}
 
 	b.ForwardSend(msgType, topic, msg, to...)
+}
+
+// drain hands over, in order, the messages that were buffered for the topic when it started and those that arrived
+// since, until none is left; only then do messages of the topic go to the message handler directly again.
+func (b *Box) drain(topic string) {
+	for {
+		b.lock.Lock()
+		queue := b.draining[topic]
+		if len(queue) == 0 {
+			delete(b.draining, topic)
+			b.lock.Unlock()
+			return
+		}
+		msg := queue[0]
+		b.draining[topic] = queue[1:]
+		b.lock.Unlock()
+
+		b.MessageHandler.HandleMessage(msg)
+	}
 }
